@@ -209,9 +209,10 @@ func unaliasedImports(f *ast.File) []string {
 }
 
 func guessable(paths []string) bool {
+	// decided by the documented rule of the guess resolver (the last element of the path), not by asking
+	// the library: a changed resolver must not redefine which files it is accountable for
 	for _, p := range paths {
-		n, _ := guess.New().ResolvePackage(p)
-		if n != stdNames[p] {
+		if p[strings.LastIndex(p, "/")+1:] != stdNames[p] {
 			return false
 		}
 	}
